@@ -122,6 +122,69 @@ def make_script(old, new, differ="lcs", style=0):
     return emit(hunks, new, style)
 
 
+def emit_plan(old, new, hunks, style=0):
+    """Script for hunks that are known by construction (checked first)."""
+    check_hunks(old, new, hunks)
+    return emit(hunks, new, style)
+
+
+# ------------------------------------------------------------------------------------------
+# big pairs from a compact description
+
+LOOKALIKES = ["..\n", "1a\n", "\n", " .\n", "2,3d\n", ".x\n"]
+
+
+def _int(v, lo, hi, default):
+    if isinstance(v, bool) or not isinstance(v, int):
+        return default
+    return min(max(v, lo), hi)
+
+
+def big_pair(desc):
+    """(old, new, hunks) for a long file with many scattered edits.
+
+    ``desc``: {"n": lines in old, "uniq": old[i] is "l<i mod uniq>", "phase": position of the
+    first edit, "step": distance between edit positions, "count": number of edits (fewer if the
+    file ends first), "ops": edit kinds used cyclically, "end": also append a line after the last
+    one}.  Edit kinds (mod 7): 0 delete one line, 1 insert one line, 2 change one line, 3 delete two,
+    4 change two lines into one, 5 insert three lines that look like commands / terminators,
+    6 change one line into two.  A deletion never reaches past the next edit position, so the
+    hunks are ordered and disjoint (touching when step <= 2).  Everything is clamped, so any
+    dict is a description.
+    """
+    n = _int(desc.get("n"), 0, 20000, 100)
+    uniq = _int(desc.get("uniq"), 1, 1000000, 1000000)
+    phase = _int(desc.get("phase"), 0, 1000, 0)
+    step = _int(desc.get("step"), 1, 1000, 3)
+    count = _int(desc.get("count"), 0, 20000, 33)
+    ops = [_int(o, 0, 1000, 0) for o in desc.get("ops") or [] if not isinstance(o, (list, dict))] or [0]
+    old = ["l%d\n" % (i % uniq) for i in range(n)]
+    new, hunks, pos = [], [], 0
+    for k in range(count):
+        p = phase + k * step
+        if p >= n:
+            break
+        op = ops[k % len(ops)] % 7
+        ndel = min({0: 1, 2: 1, 3: 2, 4: 2, 6: 1}.get(op, 0), step, n - p)
+        if op in (1, 2, 4):
+            text = ["n%d\n" % k]
+        elif op == 6:
+            text = ["n%d\n" % k, "m%d\n" % k]
+        elif op == 5:
+            text = [LOOKALIKES[(k + j) % len(LOOKALIKES)] for j in range(3)]
+        else:
+            text = []
+        new += old[pos:p]
+        hunks.append((p, p + ndel, len(new), len(new) + len(text)))
+        new += text
+        pos = p + ndel
+    new += old[pos:]
+    if desc.get("end") is True:
+        hunks.append((n, n, len(new), len(new) + 1))
+        new.append("end\n")
+    return old, new, hunks
+
+
 def have_diff():
     return os.path.exists(DIFF)
 
